@@ -59,6 +59,21 @@ class HeaderParser(Protocol):
         """Parse fields from header."""
 
 
+def _locate_in_file(
+    header_line: str, file_lines: list[str], search_from: int, fallback: int
+) -> tuple[int, int]:
+    """Find the file line holding a line of the extracted header text.
+
+    Returns (index to continue searching from, 1-based line number); the header-relative
+    number is the fallback when the text cannot be found.
+    """
+    text = header_line.strip()
+    for index in range(search_from, len(file_lines)):
+        if text and text in file_lines[index]:
+            return index, index + 1
+    return search_from, fallback
+
+
 class FileHeaderRule(BaseLintRule):  # thailint: ignore[srp]
     """Validates file headers for mandatory fields and atemporal language.
 
@@ -266,10 +281,17 @@ class FileHeaderRule(BaseLintRule):  # thailint: ignore[srp]
         atemporal_detector = AtemporalDetector()
         atemporal_violations = atemporal_detector.detect_violations(header)
 
+        header_lines = header.split("\n")
+        file_lines = (context.file_content or "").split("\n")
+        search_from = 0
         for pattern, description, line_num in atemporal_violations:
+            # line_num counts lines of the extracted header text; report the line of the file
+            search_from, file_line = _locate_in_file(
+                header_lines[line_num - 1], file_lines, search_from, line_num
+            )
             violations.append(
                 self._violation_builder.build_atemporal_violation(
-                    pattern, description, str(context.file_path or ""), line_num
+                    pattern, description, str(context.file_path or ""), file_line
                 )
             )
         return violations
